@@ -136,7 +136,10 @@ fn hist<T: CellT + std::hash::Hash>(seed: u64, histories: usize, steps: usize, m
                 18 => if rng.chance(30) { ("fill", json!({"v": fresh(1, &mut next_id)[0]})) } else { ("reserve", json!({"k": rng.below(9)})) },
                 // spare capacity of one or two whole lines (large histories)
                 30 => ("reserve", json!({"k": c.max(r_) * (1 + rng.below(2))})),
-                19 => if rng.chance(20) { ("clear", noarg.clone()) } else { ("clone", noarg.clone()) },
+                19 => if rng.chance(20) { ("clear", noarg.clone()) } else if rng.chance(50) { ("clone", noarg.clone()) } else {
+                    let (sc, sr) = if rng.chance(15) { (0, 0) } else { (1 + rng.below(maxdim), 1 + rng.below(maxdim)) };
+                    ("clone_from", json!({"nc": sc, "nr": sr, "items": fresh(sc * sr, &mut next_id)}))
+                },
                 20 => {
                     let (sc, sr) = (rng.below(c + 1), rng.below(r_ + 1));
                     let (ec, er) = (sc + rng.below(c - sc + 1), sr + rng.below(r_ - sr + 1));
@@ -161,6 +164,7 @@ fn hist<T: CellT + std::hash::Hash>(seed: u64, histories: usize, steps: usize, m
                     }
                     "fill" => Some((json!({"kind": "panic_at", "site": if rng.chance(50) { "clone" } else { "drop" }, "k": rng.below(c * r_ + 1), "lie": "none"}), LenMode::True)),
                     "clone" | "from_view" => Some((json!({"kind": "panic_at", "site": "clone", "k": rng.below(c * r_ + 1), "lie": "none"}), LenMode::True)),
+                    "clone_from" => Some((json!({"kind": "panic_at", "site": if rng.chance(60) { "clone" } else { "drop" }, "k": rng.below(nitems.max(c * r_) + 1), "lie": "none"}), LenMode::True)),
                     "clear" | "set" => Some((json!({"kind": "panic_at", "site": "drop", "k": rng.below(c * r_ + 1), "lie": "none"}), LenMode::True)),
                     "sort_by_row" | "sort_by_col" => Some((json!({"kind": "panic_at", "site": "cmp", "k": rng.below(2 * (c + r_) + 1), "lie": "none"}), LenMode::True)),
                     _ => None,
